@@ -257,6 +257,10 @@ func (sc *sched) end(outcome string) {
 	}
 	sc.aborting = true
 	sc.outcome = outcome
+	if traceOn && outcome == "deadlock" { // VS_TRACE=1: where every goroutine stands
+		buf := make([]byte, 1<<20)
+		fmt.Printf("vs deadlock, goroutine stacks:\n%s\n", buf[:runtime.Stack(buf, true)])
+	}
 	if outcome == "deadlock" || outcome == "horizon" {
 		for _, t := range sc.threads {
 			if !t.done {
